@@ -36,6 +36,9 @@ OPS = ("close", "shutdown0", "shutdown1", "shutdown2", "shutdown_write", "send",
 KNOWN_GAP = "data after own EOF/CLOSE: writer past Channel._send's lock release"
 
 
+END_SIGS = ("peer CLOSE not answered", "channel not released after both CLOSEs")
+
+
 def shards(tier):
     return 8 if tier == "quick" else 16
 
@@ -300,8 +303,8 @@ def run_case(ctx, case, rng):
                 return orig(data)
 
             tx._send_user_message = gap
-        x.settimeout(0.3)
-        y.settimeout(0.3)
+        x.settimeout(0.05)
+        y.settimeout(0.05)
         rd = cm.PollReader(y, rng.getrandbits(32), 65536).start()
         ths = []
         for prog in case["progs"]:
@@ -311,6 +314,10 @@ def run_case(ctx, case, rng):
             ths.append(threading.Thread(target=worker, daemon=True))
 
         def peer():
+            try:
+                y.send(b"\x55" * 2000)  # something for the subject's recv ops
+            except Exception:
+                pass
             time.sleep(case["peer_delay"])
             if "eof" in case["peer"]:
                 do_op(y, "shutdown_write", 0, p.rec, yside)
@@ -332,14 +339,22 @@ def run_case(ctx, case, rng):
         # finish the life cycle: whoever has not closed, closes now; then both CLOSEs must cross
         do_op(x, "close", 0, p.rec, subj)
         released = pair.wait_for(lambda: p.tc._channels.get(c.get_id()) is None and p.ts._channels.get(s.get_id()) is None
-                                 and p.link.quiescent(0.05), 10, 0.003)
-        p.wait_quiet(0.05, 5)
+                                 and p.link.quiescent(0.02), 5, 0.003)
+        final = True
+        if not released:
+            # not a time verdict: the end-state clauses are judged only once the link has been silent for a long margin
+            # (the first witness pays the full margin; repeats of an already witnessed end-state defect do not)
+            margin = 0.3 if any(k in ctx.violations for k in END_SIGS) else ctx.pick(3.0, 6.0)
+            final = p.wait_quiet(margin, 30)
+            if not final:
+                ctx.inconclusive("link never went quiet after close")
+            ctx.count("cases_not_released")
         ev = p.rec.snapshot()
         st = {}
         for side, tr in (("c", p.tc), ("s", p.ts)):
             insts, _ = cm.ledger(ev, side)
             for inst in insts:
-                st[side] = (automaton(ctx, inst, tr, case), inst)
+                st[side] = (automaton(ctx, inst, tr, case, final), inst)
         ok = all(v[0] and v[0]["close_in"] and v[0]["close_out"] for v in st.values()) and len(st) == 2
         if not released and ok:
             pass  # automaton already reported "not released"
@@ -370,7 +385,7 @@ def run_case(ctx, case, rng):
 def run(ctx):
     cm.install()
     rng = ctx.rng
-    n = ctx.pick(45, 400)
+    n = ctx.pick(30, 300)
     dl = ctx.deadline(30, 400)
     for i in range(n):
         if time.time() > dl:
@@ -379,11 +394,11 @@ def run(ctx):
         r = ctx.guard(run_case, ctx, case, rng)
         ctx.case(("c22", repr(case)), sample=case if i in (0, 5, 3) else None,
                  nontrivial=bool(r and (r["eof_out"] or r["close_out"])))
-    ctx.require("channel_sides_judged", 200)
+    ctx.require("channel_sides_judged", 150)
     ctx.require("eof_sent", 100)
-    ctx.require("close_sent", 200)
-    ctx.require("peer_close_read", 200)
-    ctx.require("both_closes_exchanged", 200)
+    ctx.require("close_sent", 150)
+    ctx.require("peer_close_read", 150)
+    ctx.require("both_closes_exchanged", 150)
     ctx.require("released_channel_ops", 500)
-    ctx.require("data_msgs_seen", 300)
-    ctx.require("cases_with_end_during_send", 20)
+    ctx.require("data_msgs_seen", 200)
+    ctx.require("cases_with_end_during_send", 15)
